@@ -30,7 +30,7 @@ def main(pid, tier, replay_path=None):
                 vecs = []
             elif tier == 'quick':
                 vecs = [v for v in vecs if v['transport'] == 'unix' or v['peer'] == 'rst' or v['way'] == 'real' or 'ERR' in v['flags']]
-            rounds = 1 if tier == 'quick' else 3
+            rounds = 1 if tier == 'quick' else 8
             allv = []
             for rd in range(rounds):
                 for v in vecs:
